@@ -171,11 +171,15 @@ def run(ctx):
                 wins = [(lo, hi)] if full else [(lo, lo + 200), (max(lo, L + RSV - 260), hi)] + \
                     [(a, a + 40) for a in sorted(rng.randint(lo + 200, max(lo + 201, L + RSV - 300)) for _ in range(3))]
                 if c.sweep == 'edges': wins = [(lo, lo + 60), (max(lo, L + RSV - 40), hi)]
+                # the model needs L / flush_size loop iterations per long primitive: below lo_m only three sizes are modelled
+                lo_m = RSV + 1 + L // 1500
                 for a, b in wins:
                     if b < a: continue
                     cl.append('sweep %d %d %d %d' % (fl, ind, a, b)); metas.append(('sweep', p, (a, b)))
-                    cost = (b - a + 1) * p['nops']
-                    mlines.append((p, 'sweep', (a, b), 'sweep %s f %d %d %d %d %d %s' % (var, a, b, ind, fl & 1, (fl >> 1) & 1, p['tok']), cost))
+                    parts = [(a, b)] if a >= lo_m else ([(x, x) for x in (a, a + 1, a + 2) if x < min(lo_m, b + 1)] + ([(lo_m, b)] if lo_m <= b else []))
+                    for a2, b2 in parts:
+                        cost = (b2 - a2 + 1) * (p['nops'] + (L * 40) // max(1, a2 - RSV))
+                        mlines.append((p, 'sweep', (a, b, a2, b2), 'sweep %s f %d %d %d %d %d %s' % (var, a2, b2, ind, fl & 1, (fl >> 1) & 1, p['tok']), cost))
             if c.dyn and not skip_buffers:
                 sizes = sorted(set([0, 1, RSV - 1, RSV, RSV + 1, RSV + 2, RSV + 3, 100, 128, 4096, max(1, L), L + RSV - 1, L + RSV, L + RSV + 1] +
                                    [rng.randint(1, L + 2 * RSV) for _ in range(6 if ctx.thorough else 2)]))
@@ -309,28 +313,52 @@ def run(ctx):
                 ctx.violation('deep-recursion-unreported', 'nesting beyond the limit printed with return %d error %d' % (ret, err), replay_of(c, p, r[1]))
 
     ndis = 0
+    nmodel = [0]
+    pending_corr = []
+    # the property statement on every implementation print of the sweeps (every size), independent of the model
+    bad_sizes = set()
+    plan_by_id = {id(x): x for x in plans}
+    for (kind_key, (reply, line)) in list(impl.items()):
+        pid_, kind, meta = kind_key
+        if kind != 'sweep': continue
+        p = plan_by_id[pid_]; c = p['case']
+        if reply.startswith('CRASH') or reply in ('NOBUF', 'BAD'): continue
+        a, b = meta
+        crecs = reply.split(' ')
+        ctx.count('%s|%d|%d|%d-%d' % (c.json[:48].hex(), p['fl'], p['ind'], a, b), klass='fixed:' + c.klass, n=len(crecs))
+        for sz, cr in zip(range(a, b + 1), crecs):
+            cr = U.parse_c(cr)
+            if cr is None: continue
+            if oracle(c, p, 'fixed', sz, cr, 'sweep %d %d %d %d' % (p['fl'], p['ind'], sz, sz)): bad_sizes.add((pid_, sz))
     for (p, kind, meta, mline, cost), mr in zip(mlines, mres):
         c = p['case']
-        r = impl.get((id(p), kind, meta))
-        if r is None: continue
-        reply, line = r
-        if reply.startswith('CRASH') or reply in ('NOBUF', 'BAD'):
-            ctx.violation('crash:' + kind, 'harness process died or lost its state: ' + reply[:300], replay_of(c, p, line)); continue
+        if kind != 'sweep':
+            r = impl.get((id(p), kind, meta))
+            if r is None: continue
+            reply, line = r
+            if reply.startswith('CRASH') or reply in ('NOBUF', 'BAD'):
+                ctx.violation('crash:' + kind, 'harness process died or lost its state: ' + reply[:300], replay_of(c, p, line)); continue
         if kind == 'sweep':
-            a, b = meta
+            a, b, a2, b2 = meta
+            r = impl.get((id(p), kind, (a, b)))
+            if r is None: continue
+            reply, line = r
+            if reply.startswith('CRASH') or reply in ('NOBUF', 'BAD'):
+                ctx.violation('crash:' + kind, 'harness process died or lost its state: ' + reply[:300], replay_of(c, p, line)); continue
             crecs = reply.split(' '); mrecs = mr.split(' ')
-            if len(crecs) != b - a + 1 or len(mrecs) != b - a + 1:
-                raise lib.CheckError('sweep reply length: impl %d model %d want %d' % (len(crecs), len(mrecs), b - a + 1))
-            ctx.count('%s|%d|%d|%d-%d' % (c.json[:48].hex(), p['fl'], p['ind'], a, b), klass='fixed:' + c.klass, n=b - a + 1)
-            for sz, cr, mm in zip(range(a, b + 1), crecs, mrecs):
-                cr = U.parse_c(cr); mm = U.parse_m(mm)
+            if len(crecs) != b - a + 1 or len(mrecs) != b2 - a2 + 1:
+                raise lib.CheckError('sweep reply length: impl %d model %d want %d / %d' % (len(crecs), len(mrecs), b - a + 1, b2 - a2 + 1))
+            for sz, mm in zip(range(a2, b2 + 1), mrecs):
+                cr = U.parse_c(crecs[sz - a]); mm = U.parse_m(mm)
                 if cr is None: continue
-                one = 'sweep %d %d %d %d' % (p['fl'], p['ind'], sz, sz)
-                bad = oracle(c, p, 'fixed', sz, cr, one)
-                if not bad and not U.same(cr, mm):
+                nmodel[0] += 1
+                if cr['hang'] or cr['over'] > 0: continue          # judged by the oracle below
+                if not U.same(cr, mm):
+                    one = 'sweep %d %d %d %d' % (p['fl'], p['ind'], sz, sz)
                     ndis += 1
-                    ctx.violation('corr:fixed', 'implementation and model (variant %s) disagree at fixed size %d, flags %d indent %d, class %s: impl %s model %s' % (
-                        var, sz, p['fl'], p['ind'], c.klass, cr, mm), replay_of(c, p, one, {'model_line': mline[:400]}))
+                    pending_corr.append(('corr:fixed', 'implementation and model (variant %s) disagree at fixed size %d, flags %d indent %d, class %s: impl %s model %s' % (
+                        var, sz, p['fl'], p['ind'], c.klass, cr, mm), replay_of(c, p, one, {'model_line': mline[:400]}), (id(p), sz)))
+            continue
         else:
             f0 = mr.split(' ')[0]
             mm = U.parse_m(f0)
@@ -342,7 +370,9 @@ def run(ctx):
                 ndis += 1
                 ctx.violation('corr:' + kind, 'implementation and model (variant %s) disagree, %s initial size %s, flags %d indent %d, class %s: impl %s model %s' % (
                     var, mode, meta, p['fl'], p['ind'], c.klass, cr, mm), replay_of(c, p, line, {'model_line': mline[:400]}))
-    ctx.log('compared; disagreements with the model: %d' % ndis)
+    for key, what, rep, where in pending_corr:
+        if where not in bad_sizes: ctx.violation(key, what, rep)
+    ctx.log('compared; %d fixed-size prints also run on the model; disagreements with the model: %d' % (nmodel[0], ndis))
     p0 = plans[0]
     ctx.sample({'value_json': p0['case'].json.decode('latin1')[:200], 'flags': p0['fl'], 'indent': p0['ind'], 'text_length': p0['L'],
                 'impl_ref': impl.get((id(p0), 'ref', None), ('',))[0][:120]})
